@@ -103,13 +103,25 @@ func sigC04(prefix string, k J2KCase, site string) string {
 }
 
 func runC04(c *Ctx) {
-	c.R.Rule = "random single-tile reversible configurations over the property's space (size classes: 1..40 grid, around code-block multiples, tiny, random to 150/600; comps 1-4; P 1-16; signed; levels 0-6; cb 4..64; precincts {0,32..256}; 5 progressions; layers 1-6 and a many-layers class 998..5000 (65535 thorough); MCT); non-trivial = content not constant and more than one sample; distinct by full configuration + content seed"
+	c.R.Rule = "random single-tile reversible configurations over the property's space (size classes: 1..40 grid, around code-block multiples, tiny, random to 150/600, strips longer than 32768 / 65536 samples; comps 1-4; P 1-16; signed; levels 0-6; cb 4..64; precincts {0,32..256}; 5 progressions; layers 1-6 and a many-layers class 998..5000 (65535 thorough); MCT); non-trivial = content not constant and more than one sample; distinct by full configuration + content seed"
 	n := c.N(700, 12000)
 	rng := c.Rng.Fork()
 	cases := make([]J2KCase, n)
 	for i := range cases {
 		cases[i] = genC04(rng, i, c.Thor)
 	}
+	// strips longer than the default precinct size 2^15: code-blocks beyond band offset 32768, where
+	// the default ("no precincts configured") partition still splits the resolution into precincts
+	strips := [][4]int{{32832, 1, 0, 64}, {1, 33000, 0, 64}, {32769, 1, 0, 4}, {70000, 2, 1, 64}, {2, 66000, 1, 32}, {40000, 1, 0, 16}, {3, 33333, 0, 8}, {65700, 1, 1, 64}}
+	if c.Thor {
+		strips = append(strips, [4]int{131500, 1, 2, 64}, [4]int{1, 131073, 2, 32}, [4]int{33000, 3, 0, 64}, [4]int{98304, 2, 1, 64})
+	}
+	for i, st := range strips {
+		k := J2KCase{Seed: rng.U64(), W: st[0], H: st[1], Comps: 1 + i%2, P: []int{8, 12, 16, 5}[i%4], Signed: i%3 == 1, Levels: st[2],
+			CBW: st[3], CBH: st[3], Prog: i % 5, Layers: 1 + i%3, MCT: false, Content: i % 2}
+		cases = append(cases, k)
+	}
+	n = len(cases)
 	cases, n = replayCases(c, "j2k_roundtrip", cases)
 	ParallelFor(n, c.Work, func(i int) {
 		k := cases[i]
